@@ -78,10 +78,51 @@ func (t *TraceWriter) Close() error {
 func (c *Chain) Step(t *TraceWriter, e Event) (Outcome, State) {
 	o := c.Exec(&e)
 	post := c.Project()
+	if post.exceeds32() && o.Result != "PANIC" && o.Result != "HANG" {
+		// TLC's integers are 32 bit: a state with a larger number in it cannot be judged by the specification. The trace
+		// ends BEFORE this step (it is not written); a driver stops, a replay goes on unrecorded.
+		o.Result = "RANGE"
+		return o, post
+	}
 	if t != nil {
 		t.Event(e, o, post)
 	}
 	return o, post
+}
+
+// exceeds32: some projected number is outside TLC's integer range.
+func (s *State) exceeds32() bool {
+	const lim = int64(1)<<31 - 1
+	big := func(x int64) bool { return x > lim || x < -lim }
+	if big(s.Supply) || big(s.Pool.Reward) || big(s.Pool.Acc) || big(s.Pool.Storage) || big(s.Pool.Pledged) {
+		return true
+	}
+	for _, v := range s.Bal {
+		if big(v) {
+			return true
+		}
+	}
+	for _, w := range s.Workers {
+		if big(w.Rew) || big(w.Income) || big(w.Storage) {
+			return true
+		}
+	}
+	for _, p := range s.Pledges {
+		if big(p.Rew) || big(p.Debt) || big(p.Cap) || big(p.Used) {
+			return true
+		}
+	}
+	for _, o := range s.Orders {
+		if big(o.Amount) || big(o.Size) || big(o.Dur) {
+			return true
+		}
+	}
+	for _, sh := range s.Shards {
+		if big(sh.Pledge) || big(sh.Size) || big(sh.Dur) {
+			return true
+		}
+	}
+	return false
 }
 
 // ---------------------------------------------------------------------------
@@ -144,7 +185,7 @@ func (d *Driver) do(e Event) Outcome {
 			d.everBound[b.Did] = append(d.everBound[b.Did], b.Acc)
 		}
 	}
-	if o.Result == "PANIC" || o.Result == "HANG" {
+	if o.Result == "PANIC" || o.Result == "HANG" || o.Result == "RANGE" {
 		d.Stop = o.Result
 	}
 	return o
